@@ -20,7 +20,7 @@ its schema consuming exactly RDLENGTH, no trailing bytes); then every writer con
 &mut [u8] and Cursor<&mut [u8]> of every capacity 0..=len+2 (sampled for long messages), Cursor<Vec> at offsets 0/2/k over empty and \
 pre-filled storage, Cursor<Box<[u8]>>, short-write writers returning Interrupted) must produce the same bytes in the written region, \
 leave other bytes untouched, succeed when capacity >= len and return Err (no panic) when smaller. non-trivial = packet with at least \
-one record or question; distinct = hash of (model, configuration). A constructor family builds TXT values through each public constructor (try_from(&str), with_string, add_string, \
+one record or question; distinct = hash of (model, configuration). Packets with the extended response code BADVERS and no EDNS data are walked the same way. A constructor family builds TXT values through each public constructor (try_from(&str), with_string, add_string, \
 with_char_string, try_from(HashMap)) from texts of 0..2100 bytes (every length next to a multiple of 254/255, ASCII and multi-byte), follows them with an A record and walks all four entry points' outputs",
         assumptions: &["reference typed decoder is the framing oracle", "final stream position and the error value are not constrained"],
         exhaustive: false,
@@ -541,6 +541,23 @@ pub fn run(ctx: &mut Ctx) {
         };
         ctx.sample("matrix", || pkt_json(&p));
         check_one(ctx, "matrix", idx, &p);
+    }
+    // an extended response code (BADVERS = 16) on a packet that carries no EDNS data: the header can only hold the low
+    // nibble, and whatever the library does about the rest, the counts must still describe exactly what was written
+    for idx in 0..if ctx.slow_tool { 4 } else { tier.pick(400u64, 20_000u64) } {
+        if !ctx.take("ext-rcode-no-opt", idx) {
+            continue;
+        }
+        let mut r = ctx.rng("ext-rcode-no-opt", idx);
+        let mut g = Gen::new(&mut r, Cfg { max_entries: 3, edns: 0, ..Default::default() });
+        let mut p = g.packet();
+        p.edns = None;
+        p.rcode = 16;
+        if idx % 4 == 0 {
+            p.secs[2].clear();
+        }
+        ctx.add("packets_with_extended_rcode_and_no_edns_data", 1);
+        check_one(ctx, "ext-rcode-no-opt", idx, &p);
     }
     if !ctx.slow_tool {
         // sections with more than 255 entries (both bytes of the counts in use)
